@@ -648,11 +648,17 @@ where
                     thread_pool.spawn_fifo(move || {
                         let _open_files_guard = RLIMIT_OPEN_FILES.clone().access_owned();
                         let old_hash = fg[0].file_hash.clone();
-                        if let Some(hash) = hash_fn((&mut fg[0].file_info, old_hash)) {
+                        // The file may be unreadable through one of its paths only
+                        // (e.g. permissions of a directory), so before giving up try the other paths.
+                        // The paths that failed are left out.
+                        let hashed = (0..fg.len()).find_map(|i| {
+                            hash_fn((&mut fg[i].file_info, old_hash.clone())).map(|hash| (i, hash))
+                        });
+                        if let Some((i, hash)) = hashed {
                             // The hash function may update the length (transform);
                             // all paths of the same file must get the same length.
-                            let len = fg[0].file_info.len;
-                            for mut f in fg {
+                            let len = fg[i].file_info.len;
+                            for mut f in fg.into_iter().skip(i) {
                                 f.file_info.len = len;
                                 f.file_hash = hash.clone();
                                 tx.send(f).unwrap();
